@@ -386,8 +386,8 @@ pub fn configs(thorough: bool) -> Vec<Cfg> {
 
 pub fn run(thorough: bool) -> i32 {
     let mut rep = Report::new("C12", "model_checking", if thorough { "thorough" } else { "quick" });
-    let depth = if thorough { 10 } else { 7 };
-    let cap = if thorough { 400_000 } else { 40_000 };
+    let depth = if thorough { 9 } else { 7 };
+    let cap = if thorough { 60_000 } else { 40_000 };
     let mut states = 0u64;
     let mut trans = 0u64;
     let mut per_cfg = Vec::new();
